@@ -9,6 +9,9 @@ ENGINES = [
 ]
 
 PHASES = {
+    "C17": [
+        {"pkg": "e2", "test": "TestC17MountPoints", "phase": "C17/mount-point-isolation"},
+    ],
     "C14": [
         {"pkg": "e2", "test": "TestC14CrossNode", "phase": "C14/cross-node-delivery"},
     ],
@@ -63,6 +66,12 @@ PHASES = {
 }
 
 META = {
+    "C17": {
+        "engine": "E2-brokermc",
+        "technique": "explicit enumeration of two-tenant event sequences on the in-process broker, each executed twice for a differential non-interference oracle plus a direct provenance oracle",
+        "text": "Every event sequence up to depth 3 (quick) / 4 (thorough) over 13 events per tenant (subscribe #, +, +/t, t, t/#; publish t, t/u, m2/t with and without retain; will-bearing drop; connect with the other tenant's client identifier) for mount-point pairs (m1,m2), (m1,m10), (m10,m1), on 1 (thorough: also 2) nodes. Every PUBLISH a client receives must carry a (topic, payload) its own tenant published, verbatim; tenant A's complete observation (inbox, liveness, ping) must equal its observation with all of tenant B's events deleted.",
+        "note": "QoS 0 everywhere, so no retransmissions; inboxes compared as multisets.",
+    },
     "C14": {
         "engine": "E2-brokermc",
         "technique": "exhaustive enumeration of subscriber placements x unreachable-destination subsets x topic/filter pairs on the 2-3 node in-process broker with recording log proxies and fault-injecting inter-node transport",
